@@ -184,16 +184,15 @@ class SNAXXDMAAccelerator(
                 cst = arith.ConstantOp.from_int_and_width(stride, i32)
                 result.append(([cst], cst.result))
 
-            # channel mask option
-            if any(isinstance(opt, HasChannelMask) for opt in streamer.opts):
-                if is_zero_pattern:
-                    # mask all channels such that they generate zeros
-                    c0 = arith.ConstantOp.from_int_and_width(0, i32)
-                    result.append(([c0], c0.result))
-                else:
-                    # else, set to 32b111...111 (=-1) (all enabled)
-                    n1 = arith.ConstantOp.from_int_and_width(-1, i32)
-                    result.append(([n1], n1.result))
+            # channel mask (this field is always present for the xdma streamers)
+            if is_zero_pattern and any(isinstance(opt, HasChannelMask) for opt in streamer.opts):
+                # mask all channels such that they generate zeros
+                c0 = arith.ConstantOp.from_int_and_width(0, i32)
+                result.append(([c0], c0.result))
+            else:
+                # else, set to 32b111...111 (=-1) (all enabled)
+                n1 = arith.ConstantOp.from_int_and_width(-1, i32)
+                result.append(([n1], n1.result))
 
             # byte mask option
             if any(isinstance(opt, HasByteMask) for opt in streamer.opts):
